@@ -185,3 +185,42 @@ Definition wf_convertor (c : convertor) : bool :=
                     | Some kd => tag_fits (snd (fst r)) kd
                     | None => false
                     end) (cv_rows c).
+
+(* ---------------------------------------------------------------- the intended mapping, pinned *)
+(* Which proto field an element is MEANT to fill is a naming convention of the .proto file, not
+   something the regenerated map can vouch for (it follows the code). It is pinned here by name:
+   a converter row that sends an element to a proto field with another name breaks the
+   obligation C19_mapping_pinned (a deliberately added mapping has to be added here too). *)
+Local Open Scope string_scope.
+Definition intended_map : list (string * string) :=
+  [("flowStartSeconds", "TimeFlowStartInSecs"); ("flowEndSeconds", "TimeFlowEndInSecs");
+   ("sourceIPv4Address", "SrcIP"); ("sourceIPv6Address", "SrcIP");
+   ("destinationIPv4Address", "DstIP"); ("destinationIPv6Address", "DstIP");
+   ("sourceTransportPort", "SrcPort"); ("destinationTransportPort", "DstPort");
+   ("protocolIdentifier", "Proto");
+   ("packetTotalCount", "PacketsTotal"); ("octetTotalCount", "BytesTotal");
+   ("packetDeltaCount", "PacketsDelta"); ("octetDeltaCount", "BytesDelta");
+   ("reversePacketTotalCount", "ReversePacketsTotal"); ("reverseOctetTotalCount", "ReverseBytesTotal");
+   ("reversePacketDeltaCount", "ReversePacketsDelta"); ("reverseOctetDeltaCount", "ReverseBytesDelta");
+   ("sourcePodNamespace", "SrcPodNamespace"); ("sourcePodName", "SrcPodName"); ("sourceNodeName", "SrcNodeName");
+   ("destinationPodNamespace", "DstPodNamespace"); ("destinationPodName", "DstPodName");
+   ("destinationNodeName", "DstNodeName");
+   ("destinationClusterIPv4", "DstClusterIP"); ("destinationClusterIPv6", "DstClusterIP");
+   ("destinationServicePort", "DstServicePort"); ("destinationServicePortName", "DstServicePortName");
+   ("ingressNetworkPolicyName", "IngressPolicyName"); ("ingressNetworkPolicyNamespace", "IngressPolicyNamespace");
+   ("egressNetworkPolicyName", "EgressPolicyName"); ("egressNetworkPolicyNamespace", "EgressPolicyNamespace")].
+Definition intended_hdr : list string := ["TimeReceived"; "SequenceNumber"; "ObsDomainID"; "ExportAddress"].
+
+Definition field_name (fields : list (N * string * string)) (k : N) : string :=
+  match find (fun r => N.eqb (fst (fst r)) k) fields with Some r => snd r | None => "" end.
+Definition mapping_pinned (fields : list (N * string * string)) (hdr : N * N * N * N)
+                          (rows : list (string * string * N)) : bool :=
+  (let '(ft, fs, fd, fa) := hdr in
+   forallb (fun p => String.eqb (field_name fields (fst p)) (snd p))
+           (combine [ft; fs; fd; fa] intended_hdr)) &&
+  forallb (fun r => match find (fun p => String.eqb (fst p) (fst (fst r))) intended_map with
+                    | Some p => String.eqb (field_name fields (snd r)) (snd p)
+                    | None => false
+                    end) rows &&
+  (* every intended element is actually mapped *)
+  forallb (fun p => existsb (fun r => String.eqb (fst (fst r)) (fst p)) rows) intended_map.
